@@ -117,6 +117,20 @@ UpdateCurrency(s, q) ==
        /\ last' = [call |-> "update_currency", ret |-> c # "none"]
   /\ UNCHANGED <<sess, run, today>>
 
+\* custom rules and unit families (C18)
+AddRule(lang, name, pats, beh) ==
+  /\ Idle /\ calc' = AddRuleTo(calc, lang, name, pats, beh)
+  /\ last' = [call |-> "add_rule", ret |-> AddRuleRet(lang)] /\ UNCHANGED <<sess, run, today>>
+DeleteRule(lang, name) ==
+  /\ Idle /\ calc' = DeleteRuleFrom(calc, lang, name)
+  /\ last' = [call |-> "delete_rule", ret |-> HasRule(calc, lang, name)] /\ UNCHANGED <<sess, run, today>>
+AddFamily(f) ==
+  /\ Idle /\ calc' = AddFamTo(calc, f)
+  /\ last' = [call |-> "add_type", ret |-> ~HasFam(calc, f)] /\ UNCHANGED <<sess, run, today>>
+AddItem(f, item) ==
+  /\ Idle /\ calc' = AddItemTo(calc, f, item)
+  /\ last' = [call |-> "add_type_item", ret |-> AddItemOk(calc, f, item.idx)] /\ UNCHANGED <<sess, run, today>>
+
 (* ---- environment ------------------------------------------------------ *)
 Tick == Idle /\ today' = today + 1 /\ last' = [call |-> "tick"] /\ UNCHANGED <<calc, sess, run>>
 
@@ -153,7 +167,7 @@ FailKeepsEnvOn(lineset) ==
      IN  m.slot.k \in {"fails", "err"} => m.env = sess[s].env
 
 \* C04 as action properties
-EvalFramesCalc   == [][calc' = calc \/ last'.call \in {"set_dec", "set_tho", "set_num", "set_pct", "set_mon", "update_currency"}]_vars
+EvalFramesCalc   == [][calc' = calc \/ last'.call \in {"set_dec", "set_tho", "set_num", "set_pct", "set_mon", "update_currency", "add_rule", "delete_rule", "add_type", "add_type_item"}]_vars
 ExecuteIsPrivate == [][last'.call = "execute" /\ last' # last => sess' = sess]_vars
 SessionIsolation ==
   [][\A s \in DOMAIN sess : (run.active /\ run.s # s) => (s \in DOMAIN sess' /\ sess'[s] = sess[s])]_vars
